@@ -67,6 +67,9 @@ Fixpoint refusals_ok (rs : list GrpcCase.cgreq) (os : list GrpcCase.cgresp) : bo
       (if N.eqb a b && N.eqb b c && negb (N.eqb st 0) then gresp_eqb o1 o3 else true) && refusals_ok rs' os'
   | GrpcCase.CVGet a :: ((GrpcCase.CVUpdate b _ _ :: GrpcCase.CVGet c :: _) as rs'), o1 :: ((GrpcCase.RStatus st :: o3 :: _) as os') =>
       (if N.eqb a b && N.eqb b c && negb (N.eqb st 0) then gresp_eqb o1 o3 else true) && refusals_ok rs' os'
+  | GrpcCase.CVGet a :: ((GrpcCase.CCompute _ _ g _ _ _ _ :: GrpcCase.CVGet c :: _) as rs'), o1 :: ((GrpcCase.RStatus st :: o3 :: _) as os') =>
+      (* a refused compute leaves the global-trust vector as it was *)
+      (if N.eqb a g && N.eqb g c && negb (N.eqb st 0) then gresp_eqb o1 o3 else true) && refusals_ok rs' os'
   | _ :: rs', _ :: os' => refusals_ok rs' os'
   | _, _ => true
   end.
